@@ -91,7 +91,9 @@ def arg_for(kind, pos):
         return d + '/' + BADNAME, [W.d(d), ['f', d + '/' + BADNAME, 0o644, 'B', 1400 + pos]], d + '/' + BADNAME
     if k == 'untrashable':
         # lives on volume /w whose only candidates are unusable (.Trash is a file, .Trash-uid is a file)
-        return '/w/u%d' % pos, [W.f('/w/u%d' % pos, 'U', 0o644, 1500 + pos)], '/w/u%d' % pos
+        # (its name holds a format directive: the diagnostic about a FAILED argument is built from it)
+        nm = '/w/u%%s%d%%' % pos
+        return nm, [W.f(nm, 'U', 0o644, 1500 + pos)], nm
     if k == 'empty-string':
         return '', [], None
     if k == 'path-through-a-file':
